@@ -149,6 +149,11 @@ func ResponseEncoder(ctx context.Context, w http.ResponseWriter) Encoder {
 					enc = json.NewEncoder(w)
 				}
 			}
+			if enc == nil {
+				// The content type set in the DSL is not a valid media type,
+				// default to JSON.
+				enc, mt = negotiate("")
+			}
 			SetContentType(w, mt)
 			return enc
 		}
